@@ -35,6 +35,10 @@ double vx_MCha_pole(const M* m, int i) { return m->get_physical().MCha(i); }
 double vx_MChi_pole(const M* m, int i) { return m->get_physical().MChi(i); }
 double vx_ZN_re(const M* m, int i, int j) { return std::real(m->get_ZN()(i,j)); }
 double vx_ZN_im(const M* m, int i, int j) { return std::imag(m->get_ZN()(i,j)); }
+double vx_UM_re(const M* m, int i, int j) { return std::real(m->get_UM()(i,j)); }
+double vx_UM_im(const M* m, int i, int j) { return std::imag(m->get_UM()(i,j)); }
+double vx_UP_re(const M* m, int i, int j) { return std::real(m->get_UP()(i,j)); }
+double vx_UP_im(const M* m, int i, int j) { return std::imag(m->get_UP()(i,j)); }
 double vx_convert_me2_fpi_modify(M* m, double prec, unsigned it) { return m->convert_me2_fpi_modify(prec, it); }
 void vx_convert_me2(M* m, double prec, unsigned it) { m->convert_me2(prec, it); }
 void vx_convert_Mu_M1_M2(M* m, double prec, unsigned it) { m->convert_Mu_M1_M2(prec, it); }
